@@ -30,6 +30,21 @@ def check_case(ctx, case):
     n = len(wd)
     prior = None
     if case.get("prior") and n > 1:
+        # two files, two wrappers: wrapper A around r1 is asked and stays alive, r1's sequence is then replaced (a corrected
+        # read); another record r2 holding r1's old letters is wrapped: it is typed on its own letters
+        base0 = T.evaluate(cls, wd)[:3]
+        r1_ = impl.mk_record(impl.CRec(0, wd, [], []))
+        wa_ = cls(r1_)
+        try:
+            wa_.is_valid() and wa_.overhang_start()
+        except Exception:  # noqa
+            pass
+        r1_.seq = impl.Seq(wd[::-1])
+        got0 = T.evaluate(cls, wd)[:3]
+        if got0 != base0:
+            ctx.fail("{} on {!r} answers {} — and {} while a wrapper of the same class is alive around another record that held "
+                     "these letters before its sequence was replaced".format(cls.__name__, wd, base0, got0), case)
+        del wa_, r1_
         # the same plasmid opened at another origin was typed with the same class just before, and that wrapper is
         # still referenced
         prior = cls(impl.mk_record(impl.CRec(0, gen.rot(wd, 1 + case["prior"] % (n - 1)), [], [])))
